@@ -1024,14 +1024,21 @@ class Check:
                          else tuple([t.__name__ for t in self.types]),
                          type(target).__name__))
 
-        if self.vals and target not in self.vals:
-            if self.default is not RAISE:
-                return arg_val(target, self.default, scope)
-            if len(self.vals) == 1:
-                # (one_of may be a set, a dict, ...: no [0])
-                errs.append(f"expected {next(iter(self.vals))}, found {target}")
-            else:
-                errs.append(f'expected one of {self.vals}, found {target}')
+        if self.vals:
+            try:
+                is_one = target in self.vals
+            except Exception:
+                # (an unhashable target and a set of values, an == that
+                # cannot be evaluated: the target is not one of them)
+                is_one = False
+            if not is_one:
+                if self.default is not RAISE:
+                    return arg_val(target, self.default, scope)
+                vals = tuple(self.vals)  # (may be a set, a dict, any iterable: no [0], no len())
+                if len(vals) == 1:
+                    errs.append(f"expected {vals[0]}, found {target}")
+                else:
+                    errs.append(f'expected one of {self.vals}, found {target}')
 
         if self.validators:
             for i, validator in enumerate(self.validators):
